@@ -20,7 +20,7 @@ def main():
     quick = chk.tier == "quick"
     cases, jobs, pyres, records, tail_ok, errors = C.canonical_ops(
         chk, 150 if quick else 2000, 6 if quick else 1, 3 if quick else 4, rng, overfill=True,
-        sanitize=not quick, k=2)
+        sanitize=not quick, k=2, fresh=True)
     C.report_build_errors(chk, cases, errors)
     for i, vi, e, h, o in records:
         chk.count()
@@ -41,7 +41,7 @@ def main():
             bad = "get_byte_size() = %s but encode() returned %s bytes" % (size, len(o.get("reenc") or "") // 2)
         elif o.get("heap_overrun"):
             bad = "encode wrote past a buffer of get_byte_size() bytes (%d guard blocks damaged)" % o["heap_overrun"]
-        elif e != "overfill" and S.stiffness(t) == 0 and size != len(h) // 2:
+        elif e not in ("overfill", "fresh") and S.stiffness(t) == 0 and size != len(h) // 2:
             bad = "fixed type: get_byte_size() = %s, wire size %d" % (size, len(h) // 2)
         if bad:
             chk.violation("size-%d-%d-%s" % (i, vi, e), C.case_of(cases, jobs, i, vi, {
@@ -53,7 +53,7 @@ def main():
     seen = set()
     entries = []
     for i, vi, e, h, o in records:
-        if o.get("ok") and e != "overfill" and o.get("size") is not None and tail_ok.get((i, vi), True) and (i, vi) not in seen:
+        if o.get("ok") and e not in ("overfill", "fresh") and vi >= 0 and o.get("size") is not None and tail_ok.get((i, vi), True) and (i, vi) not in seen:
             seen.add((i, vi))
             entries.append((i, vi, o["size"]))
 
@@ -75,7 +75,8 @@ def main():
                         "(result = [91; canonical length])", "result": r}))
     chk.coverage["coq_size_cases"] = len(entries)
     chk.coverage["rule"] = ("schemas/values as in C03; C++ objects are obtained by decoding canonical bytes, and additionally by "
-                            "appending 2 extra elements to every limited array/bytes at any depth (over-full limited vectors). For "
+                            "appending 2 extra elements to every limited array/bytes at any depth (over-full limited vectors), and without the "
+                            "decoder at all: default-constructed objects whose vectors got 0 / 1 / 2 default elements (op fresh). For "
                             "each object: get_byte_size(), bytes written by encode<E>(void*) into an exact-size heap block, length "
                             "of encode<E>(); guard bytes after every heap block (quick) or ASan+UBSan (thorough) detect writes "
                             "outside the buffer; fixed types must report their wire size. Every get_byte_size() of a decoded object is also compared "
